@@ -74,6 +74,11 @@ def run(ctx, progs):
         for pos, t in b.terms():
             if t["k"] == "drop" and t["pl"]["l"] == 1:
                 drops.append(pos)
+            # explicit release: self moved into a call (mem::drop(self)) — other than the store itself
+            if t["k"] == "call" and not WRITERS.search(canon(t.get("resolved") or t.get("callee") or "")):
+                for a2 in t["args"]:
+                    if a2["k"] == "move" and "p" not in a2["pl"] and deep_strip(b.term(a2, pos))[:2] == ('param', 1) and b.local_ty(a2["pl"]["l"]).k == "adt":
+                        drops.append(pos)
         order_ok = bool(st) and all(b.pos_dominates(st[0].pos, d) for d in drops) and bool(drops)
         # `map` not used after the store
         used_after = False
